@@ -8,6 +8,7 @@
 (* after the same call (rates at a probe state as exact values).           *)
 (*                                                                         *)
 (* Mode "exh": every enabled action (breadth first, bounded by HLen);      *)
+(* Mode "mc": the same without recording (model checking under VIEW View);  *)
 (* Mode "sim": -simulate, one random action per step.                      *)
 (* An object family (Fam = "model" | "lineage") and a start object built   *)
 (* by the Pre* constants (C17: a program that covers every propensity,     *)
@@ -273,7 +274,7 @@ Step(a) ==
     LET r == Apply(a)
         w2 == Compact(r.w) IN
     /\ w' = w2
-    /\ h' = Append(h, StepRec(a, r, w2))
+    /\ h' = Append(h, IF Mode = "mc" THEN [op |-> a.op] ELSE StepRec(a, r, w2))   \* model checking needs the length only
     /\ last' = [op |-> a.op, o |-> a.o, out |-> r.out, same |-> r.sim.same,
                 keeps |-> IF a.op = "sim" /\ r.out = "ok" THEN SimKeeps(w, r.w, a.o)
                           ELSE IF a.op = "pairsim" /\ r.out = "ok" THEN SimKeeps(w, r.w, a.o) /\ SimKeeps(w, r.w, a.n) ELSE TRUE,
